@@ -167,28 +167,60 @@ def run(ctx):
             if not rets:
                 raise AnalysisError(f"{f}: return of the visited set not found")
             V = rets[0].value.id
+            start = v.fi.params[1].arg if len(v.fi.params) > 1 else "start"
             adders = {f"{V}.add"}
             for n in walk_no_nested(v.fi.node):
                 if isinstance(n, ast.Assign) and isinstance(n.targets[0], ast.Name) and norm(n.value) == f"{V}.add":
                     adders.add(n.targets[0].id)
+
+            def mentions_start(e):
+                return start in {x.id for x in ast.walk(e) if isinstance(x, ast.Name)}
+
             # the container seeded with start, and the names unpacked from popping it
-            seeded = [n for n in walk_no_nested(v.fi.node) if isinstance(n, ast.Assign) and isinstance(n.targets[0], ast.Name) and "start" in {x.id for x in ast.walk(n.value) if isinstance(x, ast.Name)} and n.targets[0].id != V]
-            qnames = {n.targets[0].id for n in seeded}
+            qnames = set()
+            for n in walk_no_nested(v.fi.node):
+                if isinstance(n, ast.Assign) and isinstance(n.targets[0], ast.Name) and n.targets[0].id != V and mentions_start(n.value):
+                    qnames.add(n.targets[0].id)
+                if isinstance(n, ast.Call) and isinstance(n.func, ast.Attribute) and n.func.attr in ("append", "appendleft", "extend", "put", "add", "insert") and isinstance(n.func.value, ast.Name) and n.func.value.id != V and any(mentions_start(a) for a in n.args) and not v.enclosing(n, (ast.For, ast.While)):
+                    qnames.add(n.func.value.id)
             popped = set()
             for n in walk_no_nested(v.fi.node):
-                if isinstance(n, ast.Assign) and isinstance(n.value, ast.Call) and isinstance(n.value.func, ast.Attribute) and n.value.func.attr in ("popleft", "pop") and norm(n.value.func.value) in qnames:
+                if isinstance(n, ast.Assign) and isinstance(n.value, ast.Call) and isinstance(n.value.func, ast.Attribute) and n.value.func.attr in ("popleft", "pop", "get") and norm(n.value.func.value) in qnames:
                     tg = n.targets[0]
                     first = tg.elts[0] if isinstance(tg, ast.Tuple) else tg
                     if isinstance(first, ast.Name):
                         popped.add(first.id)
-            init_has_start = any(isinstance(n, ast.Assign) and isinstance(n.targets[0], ast.Name) and n.targets[0].id == V and "start" in {x.id for x in ast.walk(n.value) if isinstance(x, ast.Name)} for n in walk_no_nested(v.fi.node))
-            good = []
+            init_has_start = any(isinstance(n, ast.Assign) and isinstance(n.targets[0], ast.Name) and n.targets[0].id == V and mentions_start(n.value) for n in walk_no_nested(v.fi.node)) or any(
+                isinstance(n, ast.Call) and norm(n.func) in adders and n.args and mentions_start(n.args[0]) and not v.enclosing(n, (ast.For, ast.While, ast.If)) for n in walk_no_nested(v.fi.node)
+            )
+
+            def is_visited_test(t, x):
+                t = t.operand if isinstance(t, ast.UnaryOp) and isinstance(t.op, ast.Not) else t
+                return isinstance(t, ast.Compare) and len(t.ops) == 1 and isinstance(t.ops[0], (ast.In, ast.NotIn)) and norm(t.left) == x and norm(t.comparators[0]) == V
+
+            good, conditional = [], []
             for n in walk_no_nested(v.fi.node):
-                if isinstance(n, ast.Call) and norm(n.func) in adders and n.args and isinstance(n.args[0], ast.Name) and n.args[0].id in popped | {"start"}:
-                    ifs = v.enclosing_all(n, (ast.If,))
-                    if all(norm(i.test) in (f"{n.args[0].id} not in {V}", f"not {n.args[0].id} in {V}") for i in ifs):
+                if isinstance(n, ast.Call) and norm(n.func) in adders and n.args and isinstance(n.args[0], ast.Name) and n.args[0].id in popped | {start}:
+                    x = n.args[0].id
+                    loop = v.enclosing(n, (ast.While, ast.For))
+                    ctrl = list(v.enclosing_all(n, (ast.If,)))
+                    if loop is not None:
+                        # earlier statements of the loop that can skip the rest of the iteration
+                        for i in ast.walk(loop):
+                            if isinstance(i, ast.If) and i not in ctrl and i.lineno < n.lineno and any(isinstance(y, (ast.Continue, ast.Break, ast.Return)) for b_ in i.body + i.orelse for y in ast.walk(b_)):
+                                ctrl.append(i)
+                    if all(is_visited_test(i.test, x) for i in ctrl):
                         good.append(n)
-            res.check(init_has_start or bool(good), "B-START", f, norm(good[0]) if good else f"{V}.add(<dequeued node>)", "start-in-component", "the search never adds the dequeued node itself to the visited set (nodes are only marked when discovered through a hyperedge): a start node without a (filtered) hyperedge yields an EMPTY component instead of the singleton {start}", loc(v.fi, v.fi.node))
+                    else:
+                        conditional.append(n)
+            if init_has_start or good:
+                res.ok("B-START", f, norm(good[0]) if good else f"{V} starts with {start}", "start-in-component", loc(v.fi, good[0] if good else v.fi.node))
+            elif conditional:
+                res.violation("B-START", f, norm(conditional[0]), "start-in-component", "the dequeued node is added to the visited set only under a further condition: the start node can be missing from its own component", loc(v.fi, conditional[0]))
+            elif not popped:
+                res.unknown("B-START", f, f"{V}.add(<dequeued node>)", "start-in-component", "the work list seeded with the start node was not identified", loc(v.fi, v.fi.node))
+            else:
+                res.violation("B-START", f, f"{V}.add(<dequeued node>)", "start-in-component", "the search never adds the dequeued node itself to the visited set (nodes are only marked when discovered through a hyperedge): a start node without a (filtered) hyperedge yields an EMPTY component instead of the singleton {start}", loc(v.fi, v.fi.node))
     res.assumptions += [
         "un-annotated `hg` parameters denote a Hypergraph; the degree functions are checked against all four containers (tables.POLYMORPHIC)",
         "correctness of the breadth-first search itself (that it computes reachability classes) is not decided",
